@@ -130,6 +130,8 @@ def run_engine(ob, cubes, workdir, tag):
         cmd.append("-decide")
     if ob.get("oneshot"):
         cmd.append("-oneshot")
+    if os.environ.get("VERIF_KEEPSAT"):
+        cmd += ["-keepsat", os.path.join(os.environ["VERIF_KEEPSAT"], ob["name"])]
     cmd += ["-maporder", ob.get("maporder", "fixed"), "-solver", ob.get("solver", "z3")]
     for k, v in ob.get("consts", {}).items():
         cmd += ["-const", "%s=%d" % (k, v)]
@@ -339,7 +341,9 @@ def check(prop, tier, obligations, level="model_checking", seed=0, extra_assumpt
                             else:
                                 violations.append(dict(meta, replay=rdir))
                         else:
-                            unconfirmed.append(dict(obligation=ob["name"], label=q["label"], cube=r["consts"], values=vals, native=res["outcome"]))
+                            unconfirmed.append(dict(obligation=ob["name"], label=q["label"], cube=r["consts"], values=vals, native=res["outcome"],
+                                                    trivial=q.get("trivial"), dag_nodes=q.get("nodes"), solver=q.get("solver"), secs=q.get("secs"),
+                                                    model_size=len(q.get("model") or {})))
                             shutil.rmtree(rdir, ignore_errors=True)
             for o in vouts:
                 if o.get("status") != "ok":
@@ -407,7 +411,8 @@ def check(prop, tier, obligations, level="model_checking", seed=0, extra_assumpt
     for e in engine_errors:
         print("ENGINE-ERROR: " + e)
     for u in unconfirmed[:10]:
-        print("UNCONFIRMED: %s %s (model did not reproduce natively: %s)" % (u["obligation"], u["label"], u["native"]))
+        print("UNCONFIRMED: %s %s (model did not reproduce natively: %s; trivial=%s nodes=%s model_size=%s)" % (
+            u["obligation"], u["label"], u["native"], u.get("trivial"), u.get("dag_nodes"), u.get("model_size")))
     if inconclusive:
         print("INCONCLUSIVE: %d queries/cubes undecided (see evidence); first: %s" % (len(inconclusive), json.dumps(inconclusive[0])[:400]))
     print("%s %s: %d cubes, %d queries (%d non-trivial, %d sat, %d unsat, %d unknown), %d native replays, %d validation runs, %.0fs" % (
